@@ -196,6 +196,7 @@ Lemma deliver : forall S i c s h used r0 a kn allow syn,
     | GDead => s_exists s1 = false /\ h_closed (s_half s1) = true
     | GLive kn' en =>
       s_exists s1 = true /\ h_closed (s_half s1) = en /\ s_rev_closed s1 = s_rev_closed s /\
+      (en = true -> s_rev_closed s1 = false) /\
       exists A', kn' = Some (A', e') /\
         (en = false -> h_next (s_half s1) = h_next h /\ 0 <= A' /\ sok S i A' e' (h_saved (s_half s1)) /\
                        qok S i (e' + 1) HIS (h_queue (s_half s1)) /\ (h_queue h = [] -> cend r0 = false) /\
@@ -255,7 +256,7 @@ Proof.
       split; [rewrite Hev; rewrite app_nil_r, nsg_app, nsg_tags; reflexivity|].
       cbn [s_cfg s_ncalls s_rev_seen s_sid s_exists s_half s_rev_closed h_closed].
       split; [lia|]. split; [lia|]. split; [reflexivity|]. split; [reflexivity|]. split; [reflexivity|]. split; [reflexivity|].
-      split; [exact Hex|]. split; [reflexivity|]. split; [reflexivity|].
+      split; [exact Hex|]. split; [reflexivity|]. split; [reflexivity|]. split; [intros _; reflexivity|].
       exists Anew. split; [reflexivity|]. intros Hc0; discriminate.
   - eexists. exists e'. eexists. exists (GLive (Some (Anew, e')) false). split; [rewrite Hnx; reflexivity|].
     split.
@@ -264,7 +265,7 @@ Proof.
     split; [rewrite Hev; rewrite nsg_app, nsg_tags; reflexivity|].
     cbn [s_cfg s_ncalls s_rev_seen s_sid s_exists s_half s_rev_closed].
     split; [lia|]. split; [lia|]. split; [reflexivity|]. split; [reflexivity|]. split; [reflexivity|]. split; [reflexivity|].
-    split; [exact Hex|]. split; [rewrite Hcl; exact Hop|]. split; [reflexivity|].
+    split; [exact Hex|]. split; [rewrite Hcl; exact Hop|]. split; [reflexivity|]. split; [intros Hc0; discriminate|].
     exists Anew. split; [reflexivity|]. intros _.
     split; [exact Hnext|]. split; [exact HAn|]. split; [rewrite Hsv; exact Hsok|]. split; [rewrite Hqu; exact Hq1|].
     split; [intros Hq0; rewrite <- (Hend Hq0); reflexivity|].
@@ -367,7 +368,9 @@ Definition ginv (c : cfg) (S : list Z) (i : Z) (R0 : list (Z * Z)) (g : gst) (st
   match g with
   | GDead => s_exists st = false
   | GLive kn en => s_exists st = true /\ h_closed (s_half st) = en /\
-                   (en = false -> half_ok S i kn (s_half st) /\ rcv_ok S i R0 kn (h_queue (s_half st)))
+                   (en = false -> half_ok S i kn (s_half st) /\ rcv_ok S i R0 kn (h_queue (s_half st))) /\
+                   (* a connection with both halves closed does not stay in the pool *)
+                   (en = true -> s_rev_closed st = false)
   end.
 
 Lemma limit_hit_on : forall c x y, limit_hit c x y = true -> limits_on c = true.
@@ -481,7 +484,7 @@ Lemma after_deliver : forall S i c s1 e' g' N,
   match g' with
   | GDead => s_exists s1 = false
   | GLive kn' en =>
-    s_exists s1 = true /\ h_closed (s_half s1) = en /\
+    s_exists s1 = true /\ h_closed (s_half s1) = en /\ (en = true -> s_rev_closed s1 = false) /\
     exists A', kn' = Some (A', e') /\
       (en = false -> N = sq i e' /\ 0 <= A' /\ sok S i A' e' (h_saved (s_half s1)) /\
                      qok S i (e' + 1) HIS (h_queue (s_half s1)) /\
@@ -492,7 +495,8 @@ Proof.
   intros S i c s1 e' g' N Hc He H. unfold ginv. cbn [set_half s_cfg]. split; [exact Hc|].
   destruct g' as [|kn' en]; cbn [set_half s_exists s_half set_next h_closed].
   - exact H.
-  - destruct H as (H1 & H2 & A' & Hk & H3). split; [exact H1|]. split; [exact H2|].
+  - destruct H as (H1 & H2 & Hrv & A' & Hk & H3). split; [exact H1|]. split; [exact H2|].
+    cbn [s_rev_closed]. split; [|exact Hrv].
     intros Hen. destruct (H3 Hen) as (HN & HA & Hs & Hq & Hrc). subst kn' N.
     unfold half_ok. cbn [set_next h_closed h_queue h_next h_saved lo_of].
     split; [|exact Hrc]. split; [congruence|]. split; [eapply qok_weaken; eauto; lia|]. auto.
@@ -529,7 +533,7 @@ Proof.
   { intros used1 pages1. eexists. exists (map ETag (l0 ++ c2_tags r)), (GLive kn false).
     split; [rewrite map_app; reflexivity|]. split; [apply gevs_tags|]. split.
     - unfold ginv. cbn [s_cfg s_exists s_half h_closed]. split; [reflexivity|]. split; [exact Hex|]. split; [exact Hcl|].
-      intros _. split; [|exact Hrc]. unfold half_ok. cbn [h_closed h_queue h_next h_saved]. auto.
+      split; [|intros Hc; discriminate]. intros _. split; [|exact Hrc]. unfold half_ok. cbn [h_closed h_queue h_next h_saved]. auto.
     - rewrite nsg_tags. cbn [s_ncalls]. lia. }
   destruct (limit_hit c (h_pages h - c2_rel r + c2_added r) (s_used s - c2_rel r + c2_added r)) eqn:Elim.
   2: apply Hstay.
@@ -557,7 +561,7 @@ Proof.
   - split.
     + apply (after_deliver S i c s1 e' g'); try assumption.
       destruct g' as [|kn' en]; [exact (proj1 Hpost)|].
-      destruct Hpost as (H1 & H2 & _ & A' & Hk & H3). split; [exact H1|]. split; [exact H2|].
+      destruct Hpost as (H1 & H2 & _ & Hrv & A' & Hk & H3). split; [exact H1|]. split; [exact H2|]. split; [exact Hrv|].
       exists A'. split; [exact Hk|]. intros Hen. destruct (H3 Hen) as (_ & HA & Hs & Hqq & _ & Hrc'). auto 10.
     + cbn [set_half s_ncalls]. rewrite Hnc. rewrite nsg_app, nsg_tags. unfold nsg in *. cbn [filter is_sg length] in *.
       fold (nsg ev). unfold nsg. lia.
@@ -626,7 +630,7 @@ Proof.
     + split.
       * apply (after_deliver S i c s1 e' g'); try assumption.
         destruct g' as [|kn' en]; [exact (proj1 Hpost)|].
-        destruct Hpost as (H1 & H2 & _ & A' & Hk & H3). split; [exact H1|]. split; [exact H2|].
+        destruct Hpost as (H1 & H2 & _ & Hrv & A' & Hk & H3). split; [exact H1|]. split; [exact H2|]. split; [exact Hrv|].
         exists A'. split; [exact Hk|]. intros Hen. destruct (H3 Hen) as (_ & HA' & Hs & Hqq & Hend & Hrc').
         split; [|auto 10].
         destruct (g_fin g) eqn:Ef; [|reflexivity]. exfalso.
@@ -639,7 +643,7 @@ Proof.
     eexists. exists (map ETag (l0 ++ c2_tags r ++ itag)), (GLive (Some (A, p)) false).
     split; [rewrite !map_app; reflexivity|]. split; [apply gevs_tags|]. split.
     + unfold ginv. cbn [s_cfg s_exists s_half h_closed]. split; [reflexivity|]. split; [exact Hex|]. split; [exact Hcl|].
-      intros _. rewrite Z.add_0_r in Hq', N3, N5. split.
+      split; [|intros Hc; discriminate]. intros _. rewrite Z.add_0_r in Hq', N3, N5. split.
       * unfold half_ok. cbn [h_closed h_queue h_next h_saved lo_of]. auto 10.
       * cbn [h_queue]. unfold rcv_ok. cbn [lo_of]. auto 10.
     + rewrite nsg_tags. cbn [s_ncalls]. lia.
@@ -672,14 +676,15 @@ Lemma asm_body_ok : forall S i c syn s evn g kn en o n R0,
     gevs S c (limits_on c) syn (s_ncalls s) (gnote (GLive kn en) (g_syn g)) ev g' /\ ginv c S i R g' st' /\
     s_ncalls st' = (s_ncalls s + nsg ev)%nat.
 Proof.
-  intros S i c syn s evn g kn en o n R0 HS (Hcfg & Hex & Hcl & Hopen) (Hfo & Hb & Ho & Hn & HoS & Hfin & Hseq & Hsyn0) HR.
+  intros S i c syn s evn g kn en o n R0 HS (Hcfg & Hex & Hcl & Hopen & Hrev) (Hfo & Hb & Ho & Hn & HoS & Hfin & Hseq & Hsyn0) HR.
   unfold asm_body. cbn [h_closed h_next h_queue]. rewrite Hcl.
   destruct en.
   - (* closed half: the segment is ignored *)
     eexists. exists [], (GLive kn true). split; [rewrite app_nil_r; reflexivity|].
     split; [destruct kn as [(?, ?)|]; reflexivity|]. split.
     + unfold ginv. cbn [set_half s_cfg s_exists s_half h_closed].
-      split; [assumption|]. split; [assumption|]. split; [first [assumption|reflexivity]|]. intros Hc; discriminate.
+      split; [assumption|]. split; [assumption|]. split; [first [assumption|reflexivity]|].
+      cbn [s_rev_closed]. split; [intros Hc; discriminate|exact Hrev].
     + cbn [set_half s_ncalls nsg filter length]. lia.
   - destruct (Hopen eq_refl) as (Hopen' & Hrc0). clear Hopen. rename Hopen' into Hopen.
     pose proof Hopen as (Hc0 & Hq & Hkn).
@@ -767,7 +772,7 @@ Proof.
                     (Datatypes.S (s_sid st)) (s_ncalls st)).
     assert (Hi' : ginv c S i [] (GLive None false) s').
     { unfold ginv, s'. cbn [s_cfg s_exists s_half new_half h_closed]. split; [exact Hcfg|]. split; [reflexivity|].
-      split; [reflexivity|]. intros _. split; [|unfold new_half; cbn [h_queue]; apply rcv_ok_nil].
+      split; [reflexivity|]. split; [|intros Hc; discriminate]. intros _. split; [|unfold new_half; cbn [h_queue]; apply rcv_ok_nil].
       unfold half_ok, new_half. cbn [h_closed h_queue h_next h_saved lo_of qok].
       split; [reflexivity|]. split; [unfold HIS, HALFW; lia|]. split; reflexivity. }
     destruct (asm_body_ok S i c (g_syn seg) s' [ENew (Datatypes.S (s_sid st))] seg None false o n [] HS Hi' Hseg HR)
@@ -821,7 +826,7 @@ Lemma close_c2s_gen : forall S i c syn nc st kn,
     gclosed gm g' /\ ginv c S i R g' st' /\ nsg ev = O /\ s_ncalls st' = s_ncalls st /\
     h_closed (s_half st') = true /\ (exists kn' en, g' = GLive kn' en -> en = true).
 Proof.
-  intros S i c syn nc st kn (Hcfg & Hex & Hcl & Hop) Hq0.
+  intros S i c syn nc st kn (Hcfg & Hex & Hcl & Hop & _) Hq0.
   destruct (Hop eq_refl) as (Hh & Hrc). rewrite Hq0 in Hrc. pose proof (rcv_empty S i kn Hrc) as Hemp.
   unfold close_c2s. destruct (s_rev_closed st).
   - eexists. eexists. exists GDead, GDead. split; [reflexivity|]. split.
@@ -834,7 +839,7 @@ Proof.
   - eexists. eexists. exists (GLive kn false), (GLive kn true). split; [reflexivity|]. split; [reflexivity|].
     split; [right; eauto|]. split.
     + unfold ginv. cbn [s_cfg s_exists s_half h_closed]. split; [exact Hcfg|]. split; [exact Hex|].
-      split; [reflexivity|intros Hc; discriminate].
+      split; [reflexivity|]. cbn [s_rev_closed]. split; [intros Hc; discriminate|intros _; reflexivity].
     + split; [reflexivity|]. split; [reflexivity|]. split; [reflexivity|]. exists kn, true. reflexivity.
 Qed.
 
@@ -844,7 +849,7 @@ Lemma skip_flush_gen : forall S i c syn st kn,
     gevs S c true syn (s_ncalls st) (GLive kn false) ev gm /\ gclosed gm g' /\ ginv c S i R g' st' /\
     s_ncalls st' = (s_ncalls st + nsg ev)%nat /\ stopped g' st'.
 Proof.
-  intros S i c syn st kn HS Hinv. pose proof Hinv as (Hcfg & Hex & Hcl & Hopen).
+  intros S i c syn st kn HS Hinv. pose proof Hinv as (Hcfg & Hex & Hcl & Hopen & _).
   destruct (Hopen eq_refl) as (Hopen' & Hrc). clear Hopen. rename Hopen' into Hopen. pose proof Hopen as (_ & Hq & Hkn).
   unfold skip_flush. destruct (h_queue (s_half st)) as [|p1 q'] eqn:Eq.
   - destruct (close_c2s_gen S i c syn (s_ncalls st) st kn Hinv Eq)
@@ -875,7 +880,7 @@ Proof.
     + split; [apply gclosed_refl|]. split.
       * apply (after_deliver S i c s1 e' g'); try assumption.
         destruct g' as [|kn' en]; [exact (proj1 Hpost)|].
-        destruct Hpost as (H1 & H2 & _ & A' & Hk & H3). split; [exact H1|]. split; [exact H2|].
+        destruct Hpost as (H1 & H2 & _ & Hrv & A' & Hk & H3). split; [exact H1|]. split; [exact H2|]. split; [exact Hrv|].
         exists A'. split; [exact Hk|]. intros Hen. destruct (H3 Hen) as (_ & HA & Hs & Hqq & _ & Hrc'). auto 10.
       * split.
         -- cbn [set_half s_ncalls]. rewrite Hnc. unfold nsg in *. cbn [filter is_sg]. lia.
@@ -961,14 +966,15 @@ Lemma close_rev_gen : forall S i c syn nc st kn en,
   exists st' ev g', close_rev st = (st', ev) /\ gevs S c true syn nc (GLive kn en) ev g' /\
     ginv c S i R g' st' /\ nsg ev = O /\ s_ncalls st' = s_ncalls st /\ stopped g' st'.
 Proof.
-  intros S i c syn nc st kn en (Hcfg & Hex & Hcl & Hop). unfold close_rev. rewrite Hcl.
+  intros S i c syn nc st kn en (Hcfg & Hex & Hcl & Hop & Hrv). unfold close_rev. rewrite Hcl.
   destruct en.
   - eexists. eexists. exists GDead. split; [reflexivity|]. split.
     + cbn [gevs]. exists GDead. split; [cbn [gev]; split; [eauto 6|reflexivity]|reflexivity].
     + split; [unfold ginv; cbn [s_cfg s_exists]; auto|]. split; [reflexivity|]. split; [reflexivity|].
       unfold stopped. cbn [s_half]. exact Hcl.
   - eexists. eexists. exists (GLive kn false). split; [reflexivity|]. split; [reflexivity|]. split.
-    + unfold ginv. cbn [s_cfg s_exists s_half]. auto.
+    + unfold ginv. cbn [s_cfg s_exists s_half s_rev_closed]. split; [exact Hcfg|]. split; [exact Hex|]. split; [exact Hcl|].
+      split; [exact Hop|intros Hc; discriminate].
     + split; [reflexivity|]. split; [reflexivity|exact I].
 Qed.
 
@@ -1006,7 +1012,7 @@ Proof.
   intros S i c syn t tc st g HS Hinv. unfold flush_opts.
   destruct g as [|kn en].
   - pose proof Hinv as (Hcfg & Hex). rewrite Hex. cbn [negb]. apply step_res_nil. exact Hinv.
-  - pose proof Hinv as (Hcfg & Hex & Hcl & Hop). rewrite Hex. cbn [negb].
+  - pose proof Hinv as (Hcfg & Hex & Hcl & Hop & _). rewrite Hex. cbn [negb].
     apply flush_step.
     unfold flush_close_rev.
     destruct (s_rev_closed st).
@@ -1054,7 +1060,7 @@ Proof.
   intros S i c syn st g HS Hinv. unfold flush_all.
   destruct g as [|kn en].
   - pose proof Hinv as (Hcfg & Hex). rewrite Hex. cbn [negb]. apply step_res_nil. exact Hinv.
-  - pose proof Hinv as (Hcfg & Hex & Hcl & Hop). rewrite Hex. cbn [negb].
+  - pose proof Hinv as (Hcfg & Hex & Hcl & Hop & _). rewrite Hex. cbn [negb].
     apply flush_step.
     destruct (s_rev_closed st).
     { pose proof (fa_loop_gen S i c syn (Datatypes.S (Datatypes.S (length (h_queue (s_half st))))) st (GLive kn en) HS Hinv
@@ -1064,6 +1070,26 @@ Proof.
     rewrite He.
     apply (flush_res_trans S i c syn (s_ncalls st) (GLive kn en) ev1 g1 s1); [exact Hg|rewrite Hnc, Hn; lia|].
     apply fa_loop_gen; assumption.
+Qed.
+
+(* after FlushAll no stream is left: the loop runs until the data half is closed (its fuel exceeds
+   the queue length, every round takes at least one page), the other half was closed first *)
+Lemma flush_all_dead : forall S i c st st' ev g',
+  flush_all fullv st = (st', ev, false) -> ginv c S i R g' st' -> g' = GDead.
+Proof.
+  intros S i c st st' ev g' He Hi. unfold flush_all in He.
+  destruct (s_exists st) eqn:Hex; cbn [negb] in He.
+  2:{ inversion He; subst st'. destruct g' as [|kn en]; [reflexivity|]. destruct Hi as (_ & Hx & _). congruence. }
+  assert (Hs1 : exists s1 ev1, (if s_rev_closed st then (st, []) else close_rev st) = (s1, ev1) /\ s_rev_closed s1 = true).
+  { destruct (s_rev_closed st) eqn:Erc; [exists st, []; auto|]. unfold close_rev.
+    destruct (h_closed (s_half st)); eexists; eexists; split; reflexivity. }
+  destruct Hs1 as (s1 & ev1 & Hs1 & Hrc1). rewrite Hs1 in He.
+  pose proof (fa_loop_facts fullv (Datatypes.S (Datatypes.S (length (h_queue (s_half s1))))) s1) as (F1 & F2).
+  destruct (fa_loop (Datatypes.S (Datatypes.S (length (h_queue (s_half s1))))) fullv s1) as [[s2 ev2] pk2].
+  cbn [fst snd] in *. inversion He; subst s2 pk2. specialize (F2 ltac:(lia) eq_refl).
+  destruct g' as [|kn [|]]; [reflexivity| |].
+  - destruct Hi as (_ & _ & _ & _ & Hrv). specialize (Hrv eq_refl). congruence.
+  - destruct Hi as (_ & _ & Hcl & _). congruence.
 Qed.
 
 End WithR.
@@ -1131,7 +1157,8 @@ Fixpoint gtrace (S : list Z) (c : cfg) (g : gst) (R0 : list (Z * Z)) (nc : nat) 
   | [], [] => True
   | h :: hs', (ev, _) :: tr' =>
     exists gm g', gevs (rstep g R0 h) S (cfg_after c h) (allow_of (cfg_after c h) h) (syn_of h) nc (gnote g (syn_of h)) ev gm /\
-                  gclosed gm g' /\ gtrace S (cfg_after c h) g' (rstep g R0 h) (nc + nsg ev)%nat hs' tr'
+                  gclosed gm g' /\ (h = HFlushAll -> g' = GDead) /\
+                  gtrace S (cfg_after c h) g' (rstep g R0 h) (nc + nsg ev)%nat hs' tr'
   | _, _ => False
   end.
 
@@ -1142,7 +1169,9 @@ Proof.
   intros S i. induction hs as [|h t IH]; intros c st g R0 HS Hinv Hok; cbn [map run_trace gtrace]; [exact I|].
   cbn [forallb] in Hok. apply andb_prop in Hok. destruct Hok as (Ho1 & Ho2).
   destruct (hop_step S i c st g h R0 HS Hinv Ho1) as [st' ev gm g' He Hg Hgc Hi Hnc].
-  rewrite He. exists gm, g'. split; [exact Hg|]. split; [exact Hgc|]. rewrite <- Hnc. apply IH; assumption.
+  rewrite He. exists gm, g'. split; [exact Hg|]. split; [exact Hgc|]. split.
+  - intros Hh. subst h. cbn [op_of step] in He. eapply flush_all_dead; [exact He|exact Hi].
+  - rewrite <- Hnc. apply IH; assumption.
 Qed.
 
 (* every history: no panic (the trace has one entry per operation) and the events are legal *)
